@@ -280,6 +280,17 @@ def run_case(spec):
             argvs.append(([], rng.sample(cands, 1)))
         for sel, roots in argvs:
             one_run(spec, rng, res, model, gitdir, d, sel, roots)
+        if idx % 40 == 3 and spec.get("shimdir"):
+            # every git child of one plain run failing at its start, inside and at the end of its output: exit 0 must mean
+            # the fault-free report
+            sweep = {"viol": []}
+            sel, roots = argvs[-1]
+            nd = R.fault_sweep(R.Collector(sweep), "X", spec["sizer"], gitdir,
+                               ["--json", "--no-progress"] + sel + [sp for sp, _ in roots], spec["shimdir"], d)
+            res["runs"] += sweep.get("evals", 0)
+            res["faulted_runs"] = res.get("faulted_runs", 0) + nd
+            for sig, det in sweep["viol"]:
+                res["findings"].setdefault("fail", []).append(("exit-0-but-report-differs-from-fault-free-run", sig.rsplit("/", 1)[-1], det))
     finally:
         if not spec.get("keep"):
             shutil.rmtree(d, ignore_errors=True)
@@ -560,7 +571,15 @@ def one_run(spec, rng, res, model, gitdir, d, sel, roots):
         plan = R.make_plan(pdir, [{"sig": "for-each-ref", "ord": 0, "mode": "fault", "term": "exit:0",
                                    "after_bytes": max(1, total - rng.randint(1, 12))}])
         cut_refs = True
-    r = R.sizer(binary, gitdir, argv, env=amb, shimdir=spec.get("shimdir"), plan=plan, tmpdir=d)
+    slow = None
+    if len(model.refs) >= 400 and plan is None:
+        # the reference listing (--show-refs) goes to a reader that is not looking yet, then reads slowly: whoever prints
+        # it is held up for seconds while the children have long finished
+        slow = (65536, 1, 6500) if res["runs"] == 0 else rng.choice([None, (4096, 1, 300), (512, 0.2)])
+        if slow:
+            res["slow_stderr_runs"] = res.get("slow_stderr_runs", 0) + 1
+    r = R.sizer(binary, gitdir, argv, env=amb, shimdir=spec.get("shimdir"), plan=plan, tmpdir=d, slow_stderr=slow,
+                timeout=120 if slow else 60)
     res["runs"] += 1
     F = res["findings"]
     if faulted or cut_refs:
